@@ -3,7 +3,7 @@
      c01_mismatches     model output <> implementation output (correspondence)
      c01_spec_failures  specification oracle on the IMPLEMENTATION's outputs *)
 From IV Require Import Base.Codes Proofs.TwccHdrExtProofs Check.C15Check.
-From IV Require Export Base.Word Model.TwccHdrExt Model.Chain Model.DumpLog.
+From IV Require Export Base.Word Model.TwccHdrExt Model.Chain Model.DumpLog Model.ChainTeardown.
 From IV Require Import Proofs.ChainProofs.
 Notation wres := Chain.wres.
 From Coq Require Import Lia.
@@ -202,6 +202,32 @@ Definition close_model_ok (ms : list cm) (o : closeobs) : bool :=
   Bool.eqb (match e with None => true | Some _ => false end) onil &&
   forallb (fun ib => Bool.eqb (match e with None => false | Some x => err_is x (fst ib) end) (snd ib)) ois.
 
+(* ---- teardown histories (round 3) ----
+   The harness issues the lifecycle calls UnbindLocalStream (0) / UnbindRemoteStream (1) / Close (2)
+   on the chain in the order the case prescribes (any order, Unbinds possibly repeated) and
+   snapshots the (Close, UnbindLocalStream, UnbindRemoteStream) counters of every instrumented
+   member after each call: one tdobs per call. *)
+Definition ctr3 := (Z * Z * Z)%type.
+Definition tdobs := (Z * list ctr3)%type.
+Definition ctr3_eqb (a b : ctr3) : bool :=
+  let '(a1, a2, a3) := a in let '(b1, b2, b3) := b in (a1 =? b1) && (a2 =? b2) && (a3 =? b3).
+Definition ctr_of (m : member) : ctr3 := (m_closed m, m_unbound_local m, m_unbound_remote m).
+
+(* the chain as a tree of members (nested NewChains), counters at zero *)
+Fixpoint node_of (c : cm) : node :=
+  match c with
+  | CLeaf e => NLeaf (mkM 0 0 0 (if e =? 0 then None else Some (ELeaf e)))
+  | CChain l => NChain ((fix go (l : list cm) := match l with [] => [] | x :: tl => node_of x :: go tl end) l)
+  end.
+(* the counters of the instrumented members (kind 15) among the flattened members *)
+Definition mock_ctrs (kinds : list Z) (n : node) : list ctr3 :=
+  map (fun x => ctr_of (snd x)) (filter (fun x => fst x =? 15) (combine kinds (leaves n))).
+(* model: run the history on the tree, compare every snapshot *)
+Definition td_model_ok (kinds : list Z) (cms : list cm) (tds : list tdobs) : bool :=
+  list_eqb (list_eqb ctr3_eqb)
+    (map (mock_ctrs kinds) (trace_td (map (fun t => tdop_of (fst t)) tds) (node_of (CChain cms))))
+    (map snd tds).
+
 (* ---- the case ---- *)
 (* counts: (member index in Chain order, 0 = RTP write side / 1 = RTP read side, observed count) *)
 (* aliasing observation of one object handed to the chain: kind (0 RTCP write batch, 1 RTP write
@@ -217,7 +243,7 @@ Definition iobs := (Z * Z * list Z)%type.
 
 Definition c01_case :=
   (cfg * list member_desc * list pkt * list wop * list rop * list rop * list wop
-   * list cm * closeobs * list (Z * Z * Z) * list Z * list aobs * list iobs)%type.
+   * list cm * closeobs * list (Z * Z * Z) * list Z * list aobs * list iobs * list tdobs)%type.
 
 (* ---- injections: a member calling its own inner writer (chain_inject), replayed ---- *)
 Fixpoint run_injs (outer : list (wrapper pkt)) (tbl : list pkt) (sts : list (ws pkt)) (l : list iobs) : bool :=
@@ -269,7 +295,7 @@ Definition counts_ok (n : nat) (wsts : list (ws pkt)) (rsts : list (rs hdr)) (co
              if side =? 0 then w_ctr (nth pos wsts ws0) =? v else r_ctr (nth pos rsts rs0) =? v) counts.
 
 Definition c01_model_code (c : c01_case) : nat :=
-  let '(cf, ms, tbl, wops, rops, crops, cwops, cms, cobs, counts, _, aos, ios) := c in
+  let '(cf, ms, tbl, wops, rops, crops, cwops, cms, cobs, counts, _, aos, ios, tds) := c in
   let '(okw, wsts) := run_wops (map (wr_of cf) ms) tbl (init_ws ms) wops in
   let '(okr, rsts) := run_rops (map (rd_of cf) ms) tbl (init_rs ms) rops in
   let '(okcr, _) := run_rops (map crd_of ms) tbl (init_rs ms) crops in
@@ -278,7 +304,8 @@ Definition c01_model_code (c : c01_case) : nat :=
   else if negb okcw then 4%nat else if negb (close_model_ok cms cobs) then 5%nat
   else if negb (counts_ok (length ms) wsts rsts counts) then 6%nat
   else if negb (run_injs (rev (map (wr_of cf) ms)) tbl wsts ios) then 7%nat
-  else if negb (forallb (alias_model_ok ms tbl cwops) aos) then 8%nat else 0%nat.
+  else if negb (forallb (alias_model_ok ms tbl cwops) aos) then 8%nat
+  else if negb (td_model_ok (map fst ms) cms tds) then 9%nat else 0%nat.
 
 Definition c01_mismatches (cases : list c01_case) : list (Z * Z) := find_codes c01_model_code cases 0.
 
@@ -391,8 +418,25 @@ Definition inj_code (sid : Z) (c : cfg) (tbl : list pkt) (o : iobs) : nat :=
                   else if negb (forallb (is_fec c) rest) then 93%nat else 0%nat
   end.
 
+(* "Unbind/Close are delivered to every member of the chain exactly once" - per call on the chain,
+   wherever the call stands in the teardown history: between the snapshot before a call and the
+   one after it, every instrumented member's counter of THAT call went up by exactly one and its
+   other two counters did not move.  Codes: 74 an UnbindLocalStream, 75 an UnbindRemoteStream,
+   76 a Close was not delivered exactly once to every member. *)
+Definition ctr_bump (o : tdop) (a : ctr3) : ctr3 :=
+  let '(c, l, r) := a in
+  match o with TUnbindLocal => (c, l + 1, r) | TUnbindRemote => (c, l, r + 1) | TClose => (c + 1, l, r) end.
+Fixpoint td_spec (prev : list ctr3) (tds : list tdobs) : nat :=
+  match tds with
+  | [] => 0%nat
+  | (oz, cur) :: tl =>
+      if list_eqb ctr3_eqb (map (ctr_bump (tdop_of oz)) prev) cur then td_spec cur tl
+      else match tdop_of oz with TUnbindLocal => 74%nat | TUnbindRemote => 75%nat | TClose => 76%nat end
+  end.
+Definition td_count (o : tdop) (tds : list tdobs) : Z := count_op o (map (fun t => tdop_of (fst t)) tds).
+
 Definition c01_spec_code (cs : c01_case) : nat :=
-  let '(cf, ms, tbl, wops, rops, crops, cwops, cms, cobs, counts, flags, aos, ios) := cs in
+  let '(cf, ms, tbl, wops, rops, crops, cwops, cms, cobs, counts, flags, aos, ios, tds) := cs in
   let has_twcc := existsb (fun m => fst m =? 6) ms in
   let sid := if has_twcc then c_sid cf else 0 in
   match first_code (wop_spec sid cf false tbl) wops with
@@ -408,7 +452,15 @@ Definition c01_spec_code (cs : c01_case) : nat :=
   | S k => (50 + S k)%nat
   | O =>
     let '(onil, ois, ctrs) := cobs in
-    if negb (forallb (fun t => let '(a, b, c) := t in (a =? 1) && (b =? 1) && (c =? 1)) ctrs) then 71%nat
+    let nmock := length (filter (fun m => fst m =? 15) ms) in
+    match td_spec (repeat (0, 0, 0) nmock) tds with
+    | S k => S k
+    | O =>
+    (* at the end: as many deliveries to every member as there were calls on the chain *)
+    if negb (Nat.eqb (length ctrs) nmock &&
+             forallb (fun t => let '(a, b, c) := t in
+                        (a =? td_count TClose tds) && (b =? td_count TUnbindLocal tds) &&
+                        (c =? td_count TUnbindRemote tds)) ctrs) then 71%nat
     else
       (* every sentinel a member returned is found by errors.Is; nothing else is;
          nil iff all members returned nil *)
@@ -426,6 +478,7 @@ Definition c01_spec_code (cs : c01_case) : nat :=
            | S k => S k
            | O => first_code (alias_code sid tbl) aos
            end
+    end
   end end end end.
 
 Definition c01_spec_failures (cases : list c01_case) : list (Z * Z) := find_codes c01_spec_code cases 0.
